@@ -210,7 +210,8 @@ func (eds *EdsGenerator) buildEndpoints(proxy *model.Proxy,
 	cached := 0
 	regenerated := 0
 
-	for clusterName := range w.ResourceNames {
+	// in the order of the cluster names: the response must not depend on the iteration order of the set
+	for _, clusterName := range sets.SortedList(w.ResourceNames) {
 		affected := affectedService(proxy, edsUpdatedServices, clusterName)
 		if partialPush && changedDrs.IsEmpty() && changedAuthnNs.IsEmpty() &&
 			!affected {
